@@ -5,6 +5,7 @@ import (
 	"encoding/json"
 	"fmt"
 	"os"
+	"os/exec"
 	"path/filepath"
 	"regexp"
 	"strconv"
@@ -212,4 +213,89 @@ func (c *Ctx) ReplayTraceWitness(w *TraceWitness) (bool, string, error) {
 	}
 	evj, _ := json.Marshal(h.Events[at-1])
 	return true, fmt.Sprintf("event %d %s has no matching transition", at, evj), nil
+}
+
+// HarvestRepoTests runs the repository's own test suite with the verif hooks on and the trace-file sink enabled,
+// and has TLC validate the structure of every back-propagation the tests performed (Trace_BPStruct.tla).
+func (c *Ctx) HarvestRepoTests() error {
+	repo := os.Getenv("QV_REPO")
+	if repo == "" {
+		repo = "/repo"
+	}
+	record := func(tag string) (string, int, int, error) {
+		dir := filepath.Join(c.Work, "harvest-"+tag)
+		os.MkdirAll(dir, 0o755)
+		cmd := exec.Command("go", "test", "-tags", "verif", "-vet=off", "-count=1", "./...")
+		cmd.Dir = repo
+		cmd.Env = append(os.Environ(), "QEEP_VERIF_TRACE="+dir)
+		out, err := cmd.CombinedOutput()
+		if err != nil {
+			return "", 0, 0, Brokenf("the repository's suite does not pass with -tags verif:\n%s", Tail(string(out), 30))
+		}
+		files, _ := filepath.Glob(filepath.Join(dir, "*.ndjson"))
+		all := filepath.Join(c.Work, "harvest-"+tag+".ndjson")
+		w, err := os.Create(all)
+		if err != nil {
+			return "", 0, 0, Brokenf("%v", err)
+		}
+		events, bps := 0, 0
+		for _, f := range files {
+			b, _ := os.ReadFile(f)
+			w.Write(b)
+			events += strings.Count(string(b), "\n")
+			bps += strings.Count(string(b), "\"ev\":\"begin\"")
+		}
+		w.Close()
+		return all, events, bps, nil
+	}
+	validate := func(file, tag string) (int, error) {
+		res, err := c.TLC(TLCOpts{Module: "Trace_BPStruct", Config: "Trace_BPStruct.cfg", Workers: 1, Timeout: 10 * time.Minute, Env: []string{"QV_TRACE=" + file}, Tag: tag})
+		if err != nil {
+			return 0, err
+		}
+		if m := reRejected.FindStringSubmatch(res.Out); m != nil {
+			n, _ := strconv.Atoi(m[1])
+			return n, nil
+		}
+		if res.ExitCode != 0 || strings.Contains(res.Out, "Error:") {
+			return 0, Brokenf("TLC structural trace validation failed unexpectedly:\n%s", Tail(res.Out, 30))
+		}
+		return -1, nil
+	}
+	file, events, bps, err := record("a")
+	if err != nil {
+		return err
+	}
+	if bps == 0 {
+		return Brokenf("the repository's tests recorded no back-propagation (hook or sink missing?)")
+	}
+	c.Logf("TLC validating the %d back-propagations (%d events) the repository's own tests performed", bps, events)
+	at, err := validate(file, "harvest-a")
+	if err != nil {
+		return err
+	}
+	if at >= 0 {
+		file2, _, _, err := record("b")
+		if err != nil {
+			return err
+		}
+		at2, err := validate(file2, "harvest-b")
+		if err != nil {
+			return err
+		}
+		if at2 >= 0 {
+			b, _ := os.ReadFile(file2)
+			lines := strings.Split(string(b), "\n")
+			ev := ""
+			if at2-1 < len(lines) {
+				ev = lines[at2-1]
+			}
+			c.Violate(fmt.Sprintf("a back-propagation performed by the repository's own tests is not a behaviour of the specification: event %d %s", at2, ev),
+				map[string]any{"harvest": true, "event_index": at2, "event": ev})
+		}
+		return nil
+	}
+	c.Traces += bps
+	c.AddExtra("repo_tests_harvested", fmt.Sprintf("%d back-propagations / %d events recorded from the repository's own test suite (-tags verif, QEEP_VERIF_TRACE) and validated by TLC against Trace_BPStruct", bps, events))
+	return nil
 }
